@@ -139,6 +139,8 @@ def run_step(w, st, res):
             return w.delete_comment(st['p'], st['text'])
         if a == 'decline':
             return w.decline(st['p'])
+        if a == 'push_tag':
+            return w.push_tag(st['tag'], st['branch'])
         if a == 'report':
             name = resolve_ref(w, st)
             sha = None
